@@ -571,7 +571,7 @@ class ROMC(ParameterInference):
         param_dict = flat_array_to_dict(model.parameter_names, theta)
         dict_outputs = model.generate(
             batch_size=1, outputs=[output_node], with_values=param_dict, seed=int(seed))
-        return float(dict_outputs[output_node]) ** 2
+        return dict_outputs[output_node].item() ** 2
 
     def _freeze_seed(self, seed):
         """Freeze the model.generate with a specific seed.
